@@ -13,6 +13,22 @@ from ..core import Stats, guarded, pmap
 from ..world import World
 
 CUR = {'EUR': F(1, 100), 'USD': F(1, 100), 'JPY': F(1), 'TND': F(1, 1000)}
+# a user-declared currency whose smallest fraction is no power of ten
+USER_CUR = {'XNF': F(1, 20)}
+
+
+def register_all():
+    Money = money()
+    for x in CUR:
+        if x in USER_CUR:
+            if x not in Money:
+                Money.new_unit(x, 'nickel franc',
+                               smallest_fraction=O.dec('D:0.05'))
+        else:
+            Money.register_currency(x)
+
+
+CUR.update(USER_CUR)
 RATE_VALS = [F(1), F(11, 10), F(1, 3), F(150), F(164146, 100000000),
              F(999999, 1000000), F(151234567, 1000000),
              F(12345678901, 1000000), F(8481300, 1000000), F(2, 7),
@@ -95,7 +111,10 @@ def build_compound(mask, kind):
     Money = money()
     w = World(catalogue=True)
     for c in CUR:
-        w.must(['cur', c])
+        if c in USER_CUR:
+            w.must(['newcur', c, None, 'D:0.05'])
+        else:
+            w.must(['cur', c])
     if kind in ('mass', 'mass-xref'):
         # 'mass-xref': the same type declared with an explicit reference
         # unit symbol although Money has no reference unit
@@ -242,7 +261,7 @@ def run_price_times_mass(w, psym, msym, a, order, st=None):
 
 def rates_for(tier):
     pairs = [('EUR', 'USD'), ('USD', 'EUR'), ('EUR', 'JPY'), ('JPY', 'EUR'),
-             ('USD', 'TND'), ('TND', 'JPY')]
+             ('USD', 'TND'), ('TND', 'JPY'), ('EUR', 'XNF'), ('XNF', 'USD')]
     vals = RATE_VALS if tier == 'thorough' else RATE_VALS[:8]
     return [(a, b, str(v)) for a, b in pairs for v in vals]
 
@@ -269,8 +288,7 @@ def part_money(p, rates):
     c, mode = p
     st = Stats()
     Money = money()
-    for x in CUR:
-        Money.register_currency(x)
+    register_all()
     for a in AMTS:
         for uc, tc, v in rates:
             for form in ('m*r', 'r*m', 'm/r'):
@@ -468,8 +486,7 @@ def replay(case):
         return replay_price_mass(case)
     Money = money()
     if 'money' in case:
-        for x in CUR:
-            Money.register_currency(x)
+        register_all()
         return run_money(*case['money'])
     mask, kind, psym, a, uc, tc, v, form = case['compound']
     w, declared = build_compound(mask, kind)
